@@ -1,5 +1,5 @@
 #!/bin/sh
-# usage: process_agent.sh <nn> <first-new-index>   e.g. process_agent.sh 09 3  -> seeds C09-3 (mutation_1) and C09-4 (mutation_2), sequentially
-NN="$1"; K="$2"
-/verif/tools/process_seed.sh /tmp/wt3_C$NN 1 C$NN-$K C$NN
-/verif/tools/process_seed.sh /tmp/wt3_C$NN 2 C$NN-$((K+1)) C$NN
+# usage: process_agent.sh <nn> <first-new-index> [worktree-prefix]   e.g. process_agent.sh 09 5 /tmp/wt4_C  -> seeds C09-5 (mutation_1) and C09-6 (mutation_2), sequentially
+NN="$1"; K="$2"; PFX="${3:-/tmp/wt3_C}"
+/verif/tools/process_seed.sh ${PFX}$NN 1 C$NN-$K C$NN
+/verif/tools/process_seed.sh ${PFX}$NN 2 C$NN-$((K+1)) C$NN
